@@ -731,6 +731,15 @@ class Interp:
                     continue
             if not broke:
                 self.exec_block(st.orelse, env, func, depth)
+        elif t is getattr(ast, "Match", None):
+            subject = self.eval(st.subject, env, func, depth)
+            for case in st.cases:
+                binds = {}
+                if self._match_pattern(case.pattern, subject, binds, env, func, depth):
+                    env.update(binds) if not isinstance(env, ChainEnv) else [env.__setitem__(k_, v_) for k_, v_ in binds.items()]
+                    if case.guard is None or self.truth(self.eval(case.guard, env, func, depth)):
+                        self.exec_block(case.body, env, func, depth)
+                        break
         elif t is ast.While:
             n = 0
             while self.truth(self.eval(st.test, env, func, depth)):
@@ -829,6 +838,26 @@ class Interp:
             return
         else:
             raise Uninterpretable(f"statement {type(st).__name__} in {func.qual}")
+
+    def _match_pattern(self, pat, subject, binds, env, func, depth):
+        """structural pattern matching for the pattern kinds the package could plausibly use: values, singletons, alternatives,
+        captures / wildcard, sequences of those; anything else is uninterpretable"""
+        t = type(pat)
+        if t is ast.MatchValue:
+            return self.compare(ast.Eq(), subject, self.eval(pat.value, env, func, depth), func, depth)
+        if t is ast.MatchSingleton:
+            return subject is pat.value
+        if t is ast.MatchOr:
+            return any(self._match_pattern(p_, subject, binds, env, func, depth) for p_ in pat.patterns)
+        if t is ast.MatchAs:
+            if pat.pattern is not None and not self._match_pattern(pat.pattern, subject, binds, env, func, depth):
+                return False
+            if pat.name is not None:
+                binds[pat.name] = subject
+            return True
+        if t is ast.MatchSequence and isinstance(subject, (list, tuple)) and not any(isinstance(p_, ast.MatchStar) for p_ in pat.patterns):
+            return len(subject) == len(pat.patterns) and all(self._match_pattern(p_, x_, binds, env, func, depth) for p_, x_ in zip(pat.patterns, subject))
+        raise Uninterpretable(f"match pattern {t.__name__}")
 
     def iterate(self, it):
         if isinstance(it, SetVal) and SetVal.reverse_iteration:
@@ -1634,8 +1663,16 @@ class Interp:
             if self.is_enum_class(f.name):
                 names = kwargs.get("names", args[1] if len(args) > 1 else None)
                 ename = kwargs.get("value", args[0] if args else None)
+                if isinstance(names, dict):
+                    names = list(names.items())
+                elif isinstance(names, str):
+                    names = [(nm_, i_ + 1) for i_, nm_ in enumerate(names.replace(",", " ").split())]
+                elif isinstance(names, tuple):
+                    names = list(names)
+                if isinstance(names, list) and names and all(isinstance(x, str) for x in names):
+                    names = [(nm_, i_ + 1) for i_, nm_ in enumerate(names)]
                 if isinstance(names, list) and isinstance(ename, str):
-                    # functional Enum API: EnumBase("Name", [[member, value], ...]); equal values are aliases
+                    # functional Enum API: EnumBase("Name", [[member, value], ...] | {member: value} | "A B C"); equal values are aliases
                     members, byval = {}, {}
                     for pair in names:
                         mn, mv = pair[0], pair[1]
